@@ -138,6 +138,8 @@ def run_impl(case):
             obs = fu.run_real(case, script=make_script(case, log))
             obs["placed"] = log
         return obs
+    except fu.ObservationError:
+        raise          # the harness cannot observe the object: infrastructure error, not a verdict
     except Exception as e:
         return {"raise": core.exc_class(e), "msg": str(e)[:200]}
 
@@ -233,6 +235,10 @@ def predicates(case, impl):
         fail(clause, detail)
     if out:
         return out
+    if case.get("dice") == "scripted" and impl.get("ctx_missing"):
+        fail("observation", f"{impl['ctx_missing']} scripted generator calls could not read P / the candidate mask "
+             "from the caller's frame: the draws were NOT placed at P·(1±1e-3)", "frame-locals-missing")
+        return out
     ph = fu.physical(case.get("config"))
     n, N, dt = impl["n"], impl["N"], impl["dt"]
     XT = np.asarray(impl["XT"])
@@ -273,14 +279,25 @@ def predicates(case, impl):
     for (k_rec, vals), k in zip(calls, ks):
         liq = Xs[k] == 0
         cand = np.where(liq & (Tl[k] < ph["T_eq_l"]))[0]
-        # ambiguous candidates (float margin) are skipped
-        amb = np.abs(Tl[k] - ph["T_eq_l"]) <= 1e-9 * max(1.0, abs(ph["T_eq_l"]))
-        if np.any(amb & liq):
-            continue
+        # a liquid vial within the float margin of T_eq_l is ambiguous: only THAT vial is skipped; the
+        # number of draws tells whether the ambiguous vials were candidates (all or none, else skip)
+        amb = liq & (np.abs(Tl[k] - ph["T_eq_l"]) <= 1e-9 * max(1.0, abs(ph["T_eq_l"])))
+        skip = set()
+        if np.any(amb):
+            definite = np.where(liq & ~amb & (Tl[k] < ph["T_eq_l"]))[0]
+            if len(vals) == len(definite) + int(amb.sum()):
+                cand = np.where(liq & (amb | (Tl[k] < ph["T_eq_l"])))[0]
+            elif len(vals) == len(definite):
+                cand = definite
+            else:
+                continue
+            skip = set(np.where(amb)[0].tolist())
         if len(vals) != len(cand):
             fail("candidates", f"step {k}: {len(vals)} draws for {len(cand)} liquid supercooled vials")
             break
         for d, i in zip(vals, cand):
+            if i in skip:
+                continue
             P = 1.0 if k == kcn else fu.spec_P(ph, kb[i], Tl[k, i], dt)
             if k != kcn and abs(d - P) <= 1e-9 * max(abs(P), 1e-300):
                 continue
